@@ -60,7 +60,8 @@ parts = [
   Raw("prelude/framebatch.rs"),
   Item(lb.LB, "struct", "Peer"),
   Item(lb.LB, "struct", "BalancerState"),
-  Item(lb.LB, "struct", "LoadBalancer", extra=[("R6", "state: Mutex<BalancerState>", "state: BalancerState", 1), ("R5", "std::sync::atomic::AtomicBool", "AtomicBool", 1)]),
+  Item(lb.LB, "struct", "LoadBalancer", extra=[("R6", "state: Mutex<BalancerState>", "state: BalancerState", 1), ("R5", "std::sync::atomic::AtomicBool", "AtomicBool", 1),
+                                              ("R5", "notify_waiters: Arc<Notify>", "notify_waiters: Notify, pub epoch: Ghost<nat>, pub checked_at: Ghost<nat>", 1)]),
   Raw(text=GLUE, label="route-glue"),
   as_contract(lb.FNS["get_next_connection"]),
   as_contract(lb.FNS["connection_count"]),
